@@ -160,8 +160,45 @@ func (in *Interp) heldLocks() map[string]bool {
 	return held
 }
 
+// publish marks every object a value points to as reachable by other
+// operations (it has been stored into shared memory or a map).
+func (in *Interp) publish(v Value, depth int) {
+	if depth > 4 {
+		return
+	}
+	switch x := v.(type) {
+	case PtrV:
+		if x.obj != nil {
+			x.obj.published = true
+		}
+	case SliceV:
+		if x.arr != nil {
+			x.arr.published = true
+		}
+	case *StructV:
+		for _, f := range x.F {
+			in.publish(f, depth+1)
+		}
+	case *ArrayV:
+		for _, e := range x.E {
+			in.publish(e, depth+1)
+		}
+	case IfaceV:
+		in.publish(x.V, depth+1)
+	case FuncV:
+		for _, c := range x.Bindings {
+			in.publish(c, depth+1)
+		}
+	}
+}
+
 func (in *Interp) recordAccess(p PtrV, write bool, pos tokenPos) {
 	if p.obj == nil || !p.obj.heap || in.curOp == "" {
+		return
+	}
+	// initialisation before publication: an object the running operation allocated
+	// itself and has not yet stored into shared memory cannot be seen by another operation
+	if p.obj.allocOp == in.curOp && !p.obj.published {
 		return
 	}
 	if _, isOpaque := p.obj.val.(OpaqueV); isOpaque {
